@@ -11,7 +11,9 @@ Extension (scale factor, bulk arithmetic, copies): `Op` now also has the constru
 (`ProjData::fill(const ProjData&)`: segments increasing, TOF, `SegmentByView`), so `C02_path_addresses`,
 `C02_history_refines` and `C02_read_any_path` below cover histories that contain those operations as well; the values a
 bulk operation writes are arbitrary here (they are what the element-wise arithmetic produced).  New sections at the end:
-the scale factor of the stream, copies into a fresh `ProjDataInMemory`, segment containers of the wrong size.
+the scale factor of the stream, copies into a fresh `ProjDataInMemory`, segment containers of the wrong size, and
+(round 4) containers of the RIGHT size whose index range differs from the data's (`setterAccepts`, compared line by line
+with `set_viewgram`/`set_sinogram`/`set_segment`/`set_related_viewgrams` of every implementation).
 
 Hypotheses: `Layout.WF` (segment sequence = a permutation of the segment range, TOF sequence of the TOF range,
 non-negative sizes, `offset_3d_data` = one complete data set — which `C02_offset3d_is_one_data_set` shows is what
@@ -22,6 +24,7 @@ import StirVerif.C02.ProofsRefine
 import StirVerif.C02.ProofsScale
 import StirVerif.C02.ProofsCopy
 import StirVerif.C02.ProofsSubset
+import StirVerif.C02.ProofsSetters
 
 namespace StirVerif.C02
 
@@ -408,5 +411,42 @@ example : ∀ op ∈ ([.bulk (List.replicate 126 2), .fillPd (List.replicate 126
 
 /-- the model computes: the in-memory copy of the example layout stores segment 0 first (standard sequence 0, 1, -1) -/
 example : (memLayout (exLayout .svat false false)).segSeq = [0, 1, -1] := by decide
+
+/-! ## containers whose own index range differs from the data's -/
+
+/-- "Requests outside the index ranges are reported as errors instead of touching other data", for the container
+    setters (`set_viewgram`, `set_sinogram`, `set_segment(SegmentBySinogram)`, `set_segment(SegmentByView)`,
+    `set_related_viewgrams`; `ProjDataFromStream`, `ProjDataInterfile`, `ProjDataInMemory`): with the checks the source
+    makes plus the comparison of the minimum tangential position in `set_segment` (`tangChecked = true`), a container
+    is accepted IF AND ONLY IF its axial range (of its segment), its number of views and its tangential range are
+    exactly the data's — every container of the right size with a shifted range, and every smaller one, is refused
+    (and a refused setter writes nothing: the driver answers `err` without touching the store), while a container
+    made by the data's own `get_empty_*` is never refused.  All layouts, all segments in range. -/
+theorem C02_container_setter_accepts_iff_same_ranges (l : Layout) (s : Setter) (seg : Int) (c : CRange)
+    (hs : l.minSeg ≤ seg ∧ seg ≤ l.maxSeg) :
+    setterAccepts l true s seg c = true ↔ c = l.crange seg :=
+  setterAccepts_iff l s seg c hs
+
+/-- the direction that needs no hypothesis on the segment number: whatever is accepted has the data's ranges -/
+theorem C02_container_setter_accepted_has_same_ranges (l : Layout) (s : Setter) (seg : Int) (c : CRange)
+    (h : setterAccepts l true s seg c = true) : c = l.crange seg :=
+  setterAccepts_exact l s seg c h
+
+/-- … and FAILS for the pinned source (`tangChecked = false`: `set_segment` compares the NUMBER of tangential positions
+    only): on the small layout a `SegmentByView`/`SegmentBySinogram` of segment 0 with tangential range 0..2 (data: -1..1)
+    is accepted although it is not the data's range — its last index 2 is outside; the setter then writes it position by
+    position, i.e. shifted by one bin.  `set_viewgram`/`set_sinogram` refuse the same ranges. -/
+theorem C02_set_segment_shifted_tang_range_fails :
+    setterAccepts (exLayout .svat false false) false .segByView 0 ⟨0, 2, 2, 0, 2⟩ = true ∧
+    setterAccepts (exLayout .savt false false) false .segBySino 0 ⟨0, 2, 2, 0, 2⟩ = true ∧
+    (⟨0, 2, 2, 0, 2⟩ : CRange) ≠ (exLayout .svat false false).crange 0 ∧
+    setterAccepts (exLayout .svat false false) false .viewgram 0 ⟨0, 2, 2, 0, 2⟩ = false ∧
+    setterAccepts (exLayout .svat false false) false .sinogram 0 ⟨0, 2, 2, 0, 2⟩ = false := by decide
+
+/-- non-vacuity: the data's own ranges of segment 0 of the example layout are accepted by every setter, the axial range
+    shifted by one (1..3 instead of 0..2: the seeded 'number of axial positions only' defect) is refused by every setter -/
+example : ∀ s : Setter, setterAccepts (exLayout .svat false false) true s 0 ⟨0, 2, 2, -1, 1⟩ = true ∧
+    setterAccepts (exLayout .svat false false) false s 0 ⟨1, 3, 2, -1, 1⟩ = false := by
+  intro s; cases s <;> decide
 
 end StirVerif.C02
